@@ -79,15 +79,21 @@ def gen_tree(rng, loops=False):
         files.append(["r2", "y.c"])
     # symbolic links
     taken = {tuple(e[0]) for e in entries}
-    for _ in range(rng.choice([0, 0, 1, 2, 3])):
+    links = []
+    for _ in range(rng.choice([0, 0, 1, 2, 3, 4])):
         parent = rng.choice(dirs)
         lname = rng.choice(["l", "lk.c", "ln.h", "l.txt", "dl"])
         p = parent + [lname]
         if tuple(p) in taken:
             continue
         r = rng.random()
-        if r < 0.45 and files:
+        if r < 0.12 and links:
+            tgt = rng.choice(links)                 # a chain: link to a link
+        elif r < 0.45 and files:
             tgt = rng.choice(files)
+            if links and rng.random() < 0.2:        # ... reached through an earlier link
+                l0 = rng.choice(links)
+                tgt = l0 + [tgt[-1]]
         elif r < 0.75:
             tgt = rng.choice(dirs)
         elif r < 0.9 or not loops:
@@ -98,7 +104,10 @@ def gen_tree(rng, loops=False):
             t = "/" + "/".join(tgt)
         else:
             t = os.path.relpath("/" + "/".join(tgt), "/" + "/".join(parent))
+        if rng.random() < 0.15 and len(parent) >= 1:
+            t = "../" + parent[-1] + "/" + t if not t.startswith("/") else t + "/."
         taken.add(tuple(p))
+        links.append(p)
         entries.append([p, ["L", t]])
     return entries, dirs, files
 
@@ -197,6 +206,9 @@ def spellings(rng, p, cwd, link_dirs):
     for (lp, tgt) in link_dirs:           # lp -> directory tgt
         if p[:len(tgt)] == tgt and len(p) > len(tgt):
             out.append("/" + "/".join(lp + p[len(tgt):]))
+            out.append("/" + "/".join(lp) + "/../" + "/".join(lp[-1:] + p[len(tgt):]))
+        if p[:-1] == tgt[:-1] and len(tgt) >= 1:      # through the link and back out: link/../name (physical parent of the target)
+            out.append("/" + "/".join(lp) + "/../" + p[-1])
     return out
 
 
@@ -314,6 +326,9 @@ class C09(Check):
         self.q_member = 0
         self.q_excluded_by_pattern = 0
         self.q_link_spelled = 0
+        self.q_link_member = 0
+        self.q_respelled = 0
+        self.q_respelled_member = 0
         self.class_hits = {1: 0, 2: 0}
         self.oracle_cases = 0
         self.oracle_files = 0
@@ -550,6 +565,15 @@ class C09(Check):
                     self.hist["kinds"][tag] = self.hist["kinds"].get(tag, 0) + 1
         self.q_total += len(queries)
         self.q_member += sum(1 for x in ans[3] if x == 1)
+        plain_paths = {"/" + "/".join(e[0]) for e in entries if not isinstance(e[1], list)}
+        link_paths = ["/" + "/".join(e[0]) for e in entries if isinstance(e[1], list)]
+        for q, x in zip(queries, ans[3]):
+            if q not in plain_paths:
+                self.q_respelled += 1
+                self.q_respelled_member += x == 1
+            if any(q == l or q.startswith(l + "/") for l in link_paths):
+                self.q_link_spelled += 1
+                self.q_link_member += x == 1
         return ["ok", ans[3], self._paths(ans[4])]
 
     # ---- S versus git check-ignore ----
@@ -605,6 +629,8 @@ class C09(Check):
     def extra_coverage(self):
         return {"unsupported_pattern_cases": self.n_unsupported, "constructor_error_cases": self.n_ctor,
                 "input_distribution": self.hist, "queries_total": self.q_total, "queries_member": self.q_member,
+                "queries_not_the_real_path": self.q_respelled, "queries_not_the_real_path_members": self.q_respelled_member,
+                "queries_through_a_link": self.q_link_spelled, "queries_through_a_link_members": self.q_link_member,
                 "known_class_hits": {"parent-dir-reinclude": self.class_hits[1], "parent-dir-renegated": self.class_hits[2]},
                 "spec_oracle": "git check-ignore --no-index --stdin -z, patterns in .git/info/exclude",
                 "spec_oracle_cases": self.oracle_cases, "spec_oracle_files": self.oracle_files,
